@@ -15,7 +15,9 @@ TRUSTED_BASE = [
 ]
 ASSUMPTIONS = [
     "Tier Q: payloads are Gaussian integers, the model is evaluated on exact Gaussian rationals, the implementation's float64/complex128 results must lie within 1e-8 (relative to the largest entry) of it; generator keeps cond_2 <= 1e3, n <= 12",
-    "iterative paths (CG, GMRES, the large branch of Auto) are compared structurally in Coq and by residual (<= 1e-4 relative) against numpy in Python",
+    "iterative paths (CG, GMRES, the large branch of Auto): the theorems cover them under the hypothesis that the solver is exact on the operator it is applied to (C12/C13); "
+    "the check compares the returned operator structurally in Coq and its products by residual (<= 1e-4 relative) against numpy in Python; GMRES gets max_iters=n "
+    "(the default max_iters=1000 costs ~10 s per right-hand side on a 4x4 operator and sits in the region of flag inv_gmres_padding_singular)",
     "annotation facts (isa PSD / Unitary / SelfAdjoint) of every node are read off the implementation's objects; their truth is property C05",
 ]
 HEADER = ("From Coq Require Import ZArith QArith Qcanon List Bool Arith.\nFrom Core Require Import Base Kron Op Algebra FieldBase C06_Inv C06_Exec.\n"
@@ -346,7 +348,7 @@ def run(ctx):
     fnd = findings()
     present = {f["flag"] for f in fnd if f["present"]} | c01_present()
     flag_amb = "inv_gmres_ambiguous" in present
-    ntrees = ctx.budget(170, 1200)
+    ntrees = ctx.budget(170, 2200)
     cases = gen_trees(ctx, ntrees, present)
     terms, meta, mism = [], [], []
     err_hist, type_hist, alg_hist = {}, {}, {}
